@@ -130,7 +130,10 @@ class Command:
         Returns:
             set[RegRef]: set of subsystems the command depends on
         """
-        deps = self.op.measurement_deps | set(self.reg)
+        # RegRefs hash by (ind, active): a set filled before a subsystem was deleted still holds it
+        # under its old hash (set copies keep stored hashes), so hash every element afresh (else
+        # a subsystem the command both acts on and reads the measured value of is listed twice)
+        deps = set(list(self.op.measurement_deps) + list(self.reg))
         return deps
 
 
